@@ -5,7 +5,7 @@ CONSTANTS
   Lvls = {1, 2, 3, 4}
   Shapes <- ShapesWide
   Tombs = {TRUE, FALSE}
-  MaxEnv = 1
+  MaxEnv = 0
   OutShapes <- ShapesTwo
   KeepHist = FALSE
   MaxHist = 0
